@@ -61,6 +61,10 @@ func reflectMap(v interface{}) (reflect.Value, bool) {
 	rt := rv.Type()
 	for rv.Kind() == reflect.Interface || rv.Kind() == reflect.Pointer {
 		rv = rv.Elem()
+		// 指针/接口背后是 nil 时 rv 无效, 交给后续的 TypeOf/ValOf 报错, 而不是在这里 panic
+		if !rv.IsValid() {
+			return rv, false
+		}
 		rt = rv.Type()
 	}
 	if rt.Kind() != reflect.Map || rt.Key().Kind() != reflect.String {
